@@ -162,6 +162,30 @@ def gen_T15():
     out += 'Definition TRUE_WORDS : list (list N) := %s.\n' % clist(cstr(w) for w in tups[0])
     out += 'Definition FALSE_WORDS : list (list N) := %s.\n' % clist(cstr(w) for w in tups[1])
     out += 'Definition PRINTABLE_RANGES : list (N * N) := %s.\n' % clist('(%d, %d)' % r for r in ranges)
+    # conf.register{Network,Channel}Value: the cache scan (name matching pinned exactly, case handling included)
+    cf = tree('src/conf.py')
+    SCAN = ("gname = g._name.lower()", "for name in registry._cache.keys():",
+            "if name.lower().startswith(gname) and len(gname) < len(name):", "name = name[len(gname) + 1:]",
+            "parts = registry.split(name)")
+    for fn_, conds in (('registerNetworkValue', ["if len(parts) == 1 and parts[0] and ircutils.isChannel(parts[0]):"]),
+                       ('registerChannelValue', ["if len(parts) == 2 and parts[0] and parts[0].startswith(':') and parts[1] and ircutils.isChannel(parts[1]):",
+                                                 "elif len(parts) == 1 and parts[0] and ircutils.isChannel(parts[0]):"])):
+        src_ = ast.unparse(find_def(cf, fn_))
+        for frag in SCAN + tuple(conds):
+            need(frag in src_, 'conf.%s: cache scan changed (expected `%s`)' % (fn_, frag))
+    need("g.get(parts[0])()\n" in ast.unparse(find_def(cf, 'registerChannelValue'))
+         and "g.get(parts[0]).get(parts[1])()" in ast.unparse(find_def(cf, 'registerChannelValue')), 'registerChannelValue: child instantiation changed')
+    sn = ast.unparse(find_def(t, 'setName', 'Group'))
+    need('if name in _cache and self._lastModified < _lastModified:' in sn and 'self.set(_cache[name])' in sn, 'Group.setName: cache consumption changed')
+    gv = ast.unparse(find_def(t, 'getValues', 'Group'))
+    need('if node._wasSet:' in gv, 'Group.getValues: _wasSet filter changed')
+    isch = find_def(tree('src/ircutils.py'), 'isChannel')
+    defaults = [ast.literal_eval(x) for x in isch.args.defaults]
+    need(len(defaults) == 2 and isinstance(defaults[0], str) and isinstance(defaults[1], int), 'ircutils.isChannel defaults changed')
+    isrc = ast.unparse(isch)
+    for frag in ("',' not in s", "'\\x07' not in s", 's[0] in chantypes', 'len(s) <= channellen', 'len(s.split(None, 1)) == 1'):
+        need(frag in isrc, 'ircutils.isChannel changed (expected `%s`)' % frag)
+    out += 'Definition CHANTYPES : list N := %s.\nDefinition CHANNELLEN : N := %d.\n' % (cstr(defaults[0]), defaults[1])
     progs = atomic_programs()
     out += ('(* order of validation / side effects / store in X.set and X.setValue, inlined along the MRO *)\n'
             'Inductive stm : Type :=\n| SSkip | SCheck | SError | SAssign\n| SSeq (a b : stm) | SIf (a b : stm) | STry (body handler : stm).\n')
